@@ -11,6 +11,12 @@ def _sizes(tier, k):
 def main(tier, t0):
     tasks = stage_check.tasks_for("C05", tier, scenario="single", sizes=_sizes, cfg={"want_shacl": True}, structure_filter=lambda st: st.get("mode") != "shapemap")
     tasks += stage_check.tasks_for("C05", tier, scenario="single", sizes=_sizes, cfg={"want_shacl": False}, structure_filter=lambda st: st.get("mode") == "shapemap")
+    # disjunctions switched on (ShExC only: SHACL with disjunctions is a recorded C04 finding): the structures that produce OR statements, comments on and off
+    ors = lambda st: any(t in st["tags"] for t in ("iri+bnode", "ref-tie", "mixed-typed-values")) or st["name"] in ("ref-vs-iri", "typed-bnode-values", "refs-different-cards")
+    tasks += stage_check.tasks_for("C05", tier, scenario="single", sizes=_sizes, cfg={"want_shacl": False, "or_flags": (False, False)}, structure_filter=ors, label="or-statements")
+    tasks += stage_check.tasks_for("C05", tier, scenario="single", sizes=_sizes, cfg={"want_shacl": False, "or_flags": (False, True)}, structure_filter=ors, label="redundant-or")
+    # long documents written to a file (buffered writer, flushed every 5000 lines): the file holds the whole well-formed document (concrete replays, as C18)
+    tasks += [("harness.api", "run_history", "api/" + n, dict(name=n)) for n in ("file-vs-string", "file-vs-string-10000-lines")]
     from checks import strfn_check
     tasks += strfn_check.tasks("C05", tier)
     return stage_check.main("C05", tier, t0, tasks=tasks, extra_meta=strfn_check.meta("C05"),
